@@ -146,6 +146,15 @@ func (x *FnExec) arith(op token.Token, a, b *Term, t types.Type, math bool) (res
 			// nonlinear: keep but solvers may struggle
 		}
 	case token.QUO:
+		if _, isConst := b.intConst(); !isConst {
+			// variable divisor: uninterpreted quotient with the bounds that matter (keeps the goals linear)
+			r = tc.UF("iquo", SInt, a, b)
+			if !r.bound {
+				x.addFact(tc.Implies(tc.And(tc.Ge(a, tc.Int(0)), tc.Gt(b, tc.Int(0))), tc.And(tc.Ge(r, tc.Int(0)), tc.Le(r, a))))
+			}
+			exact = true
+			break
+		}
 		if isUnsigned(bt) || isUntyped(t) && false {
 			r = tc.Div(a, b)
 		} else {
@@ -153,6 +162,15 @@ func (x *FnExec) arith(op token.Token, a, b *Term, t types.Type, math bool) (res
 		}
 		exact = isUnsigned(bt)
 	case token.REM:
+		if _, isConst := b.intConst(); !isConst {
+			r = tc.UF("irem", SInt, a, b)
+			if !r.bound {
+				x.addFact(tc.Implies(tc.And(tc.Ge(a, tc.Int(0)), tc.Gt(b, tc.Int(0))), tc.And(tc.Ge(r, tc.Int(0)), tc.Lt(r, b))))
+				x.addFact(tc.Implies(tc.And(tc.Ge(a, tc.Int(0)), tc.Gt(b, a)), tc.Eq(r, a)))
+			}
+			exact = true
+			break
+		}
 		if isUnsigned(bt) {
 			r = tc.Mod(a, b)
 		} else {
